@@ -2,18 +2,18 @@
 from core import prop, EXPLAIN, ASSUME
 import rules_asm  # noqa
 
-prop("C04", ["T-ASM-SIZE", "T-HANDBUILT", "T-ASMLINE-SIBLINGS", "T-OPT-SIZE"])
+prop("C04", ["T-ASM-SIZE", "T-HANDBUILT", "T-ASMLINE-SIBLINGS", "T-OPT-SIZE", "T-ZP-THRESHOLD"])
 
 
 import rules_tables  # noqa
 
-prop("C03", ["T-LB-EQUIV", "T-LB-RANGE", "T-ASMLINE-SIBLINGS", "T-HANDBUILT", "T-CMPXFORM"])
+prop("C03", ["T-LB-EQUIV", "T-LB-RANGE", "T-ASMLINE-SIBLINGS", "T-HANDBUILT", "T-CMPXFORM", "T-ASM-SIZE"])
 import rules_literals  # noqa
 prop("C09", ["T-ESC", "T-STR-NUL", "T-CPP-SCAN-SIBLINGS"])
 import rules_cpp  # noqa
 prop("C07", ["T-CPP-FSM", "T-CPP-GUARD", "T-CPP-EVAL"])
 prop("C08", ["T-CPP-REGEX", "T-CPP-PARALLEL", "T-CPP-D"])
-prop("C06", ["T-LINEMAP", "T-ERR-SOURCE", "T-LOC-SIBLINGS"])
+prop("C06", ["T-LINEMAP", "T-ERR-SOURCE", "T-LOC-SIBLINGS", "T-OFFSET-LINE", "T-LOC-INDEX"])
 import rules_opt  # noqa
 prop("C02", ["T-OPT-PROT", "T-OPT-KILL", "T-OPT-BARRIER", "T-INLINE-COPY", "T-OPT-SIZE"])
 prop("C14", ["T-INLINE-COPY", "T-INLINE-LABELS", "T-LABEL-KILL", "T-LABEL-UNIQUE"])
@@ -29,6 +29,6 @@ prop("C05", ["T-HASH-ITER", "T-ORDER-FRESH", "T-NONDET-API", "M-HASH-SITES", "M-
 prop("C15", ["T-CMPXFORM", "T-FLAGS-DIRTY", "T-LABEL-KILL"])
 import rules_flow  # noqa
 import rules_mir  # noqa
-prop("C01", ["T-PREC", "T-BRANCH", "T-CMPXFORM", "T-STACK-PAIR", "T-FLAGS-DIRTY", "T-LABEL-KILL"])
+prop("C01", ["T-PREC", "T-BRANCH", "T-CMPXFORM", "T-STACK-PAIR", "T-FLAGS-DIRTY", "T-FLAGS-VALUE", "T-LABEL-KILL"])
 prop("C13", ["T-ASM-MODE", "T-LABEL-UNIQUE", "T-LABEL-DEF", "T-INLINE-LABELS", "T-HANDBUILT"])
 prop("C17", ["T-ASM-PORT", "T-RMW-GUARD"])
